@@ -295,7 +295,15 @@ async fn post_tck_evaluate(params: Json<TckEvaluateParams>, data: web::Data<Appl
 /// Input values may be defined in `JSON` or `FEEL` context format.
 /// Result is always in JSON format.
 #[post("/evaluate/{model}/{invocable}")]
-async fn post_evaluate(params: web::Path<EvaluateParams>, request_body: web::Bytes, data: web::Data<ApplicationData>) -> HttpResponse {
+async fn post_evaluate(params: web::Path<EvaluateParams>, request_body: Result<web::Bytes, actix_web::Error>, data: web::Data<ApplicationData>) -> HttpResponse {
+  let request_body = match request_body {
+    Ok(request_body) => request_body,
+    Err(reason) => {
+      return HttpResponse::BadRequest()
+        .content_type("application/json")
+        .body(ResultDto::<String>::error(err_internal_error(&format!("{:?}", reason))).to_string())
+    }
+  };
   let input = match std::str::from_utf8(&request_body) {
     Ok(input) => input,
     Err(_) => {
